@@ -463,7 +463,8 @@ Section Put.
   (** ** Put of a key that is not held *)
   Lemma put_new : forall t r rn c T k v ln, PInvN t r rn c T -> kvalid k ->
     nth_error (pheap t) (tsearch (pheap t) k T) = Some ln -> n_key ln <> k ->
-    exists t', p_put t k v = ROk t' /\ PInv t' /\
+    exists t', p_put t k v = ROk t' /\
+      (exists rn2 c2, PInvN t' r rn2 c2 (tins (nbp (pheap t)) k (diffpos (n_key ln) k) (length (pheap t)) T)) /\
       forall e, In e (p_contents t') <-> e = (k, v) \/ (In e (p_contents t) /\ fst e <> k).
   Proof.
     intros t r rn c T k v ln I KV Hl NE. pose proof I as I0. destruct I.
@@ -535,7 +536,7 @@ Section Put.
       - simpl. intros j Hj. unfold T' in Hj. apply (leaves_tins (nbp h) (nkey h)) in Hj. destruct Hj as [-> | Hj]; [now rewrite KN|].
         rewrite KJ by auto. auto.
       - simpl. unfold T'. rewrite length_leaves_tins, q_size0. lia. }
-    split; [unfold PInv; simpl; eauto|].
+    split; [exists rn2, c2; exact I2|].
     intros e. rewrite (contents_In t' r rn2 c2 T' e I2), (contents_In t r rn c T e I0). simpl. fold h. split.
     - intros [j [n [Hj [Hn ->]]]]. apply (leaves_tins (nbp h) (nkey h)) in Hj as [-> | Hj].
       + left. rewrite NEW in Hn. injection Hn as <-. unfold nw, kv_of. now destruct (pbit k dp).
@@ -558,7 +559,7 @@ Section Put.
   (** ** Put of a held key: the value is replaced *)
   Lemma put_update : forall t r rn c T k v ln, PInvN t r rn c T ->
     nth_error (pheap t) (tsearch (pheap t) k T) = Some ln -> n_key ln = k ->
-    exists t', p_put t k v = ROk t' /\ PInv t' /\
+    exists t', p_put t k v = ROk t' /\ (exists rn2, PInvN t' r rn2 c T) /\
       forall e, In e (p_contents t') <-> e = (k, v) \/ (In e (p_contents t) /\ fst e <> k).
   Proof.
     intros t r rn c T k v ln I Hl EK. pose proof I as I0. destruct I.
@@ -602,7 +603,7 @@ Section Put.
           destruct (OLD j n E) as [n' [E1 [[SS _] _]]]. eauto.
       - apply (tbits_ext (nbp h) _ (nkey h)); auto.
       - intros j Hj. rewrite KI. auto. }
-    split; [unfold PInv; simpl; eauto|].
+    split; [exists rn2; exact I2|].
     intros e. rewrite (contents_In t' r rn2 c T e I2), (contents_In t r rn c T e I0). simpl. fold h. split.
     - intros [j [n [Hj [Hn ->]]]]. destruct (Nat.eq_dec j j0) as [->|NJ].
       + left. rewrite AT in Hn. injection Hn as <-. unfold kv_of, ln'. simpl. now rewrite EK.
@@ -628,8 +629,10 @@ Section Put.
       assert (EX : exists t', p_put t k v = ROk t' /\ PInv t' /\
                  forall e, In e (p_contents t') <-> e = (k, v) \/ (In e (p_contents t) /\ fst e <> k)).
       { destruct (list_eq_dec N.eq_dec (n_key ln) k) as [EK|NE].
-        - eapply put_update; eauto.
-        - eapply put_new; eauto. }
+        - destruct (put_update t r rn c T k v ln I Hl EK) as [t' [P [[rn2 I2] C]]].
+          exists t'. repeat split; auto; try apply C. unfold PInv. rewrite (q_root _ _ _ _ _ I2). eauto.
+        - destruct (put_new t r rn c T k v ln I KV Hl NE) as [t' [P [[rn2 [c2 I2]] C]]].
+          exists t'. repeat split; auto; try apply C. unfold PInv. rewrite (q_root _ _ _ _ _ I2). eauto. }
       destruct EX as [t' [P [I' C]]]. exists t'. split; auto. split; auto.
       apply sorted_ext; [now apply PInv_sorted | now apply sput_sorted |].
       intros e. rewrite C. symmetry. now apply sput_In_iff.
@@ -787,4 +790,42 @@ Section Put.
 
   Theorem patricia_refines_partial : forall es : list (ev V), ok_hist [] es -> p_run p_new es = s_run [] es.
   Proof. intros es F. apply p_run_partial; auto. unfold PInv. reflexivity. Qed.
+
+  (** ** ownership (the facts the re-linking cases of remove depend on) is kept by Put *)
+  Definition POwn (t : pstate) : Prop :=
+    match proot t with
+    | None => psize t = 0
+    | Some r => exists rn c T, PInvN t r rn c T /\ owns T /\ NoDup (leaves T) /\ In r (leaves T)
+    end.
+
+  Lemma POwn_PInv : forall t, POwn t -> PInv t.
+  Proof.
+    intros t H. unfold POwn, PInv in *. destruct (proot t); auto. destruct H as [rn [c [T [I _]]]]. eauto.
+  Qed.
+
+  Theorem p_put_preserves_own : forall t k v, POwn t -> kvalid k ->
+    exists t', p_put t k v = ROk t' /\ POwn t' /\ p_contents t' = sput k v (p_contents t).
+  Proof.
+    intros t k v O KV. pose proof (POwn_PInv t O) as I.
+    destruct (p_put_preserves t k v I KV) as [t' [P [I' C]]]. exists t'. split; auto. split; auto.
+    unfold POwn in O. destruct (proot t) as [r|] eqn:R.
+    - destruct O as [rn [c [T [IN [OW [ND RL]]]]]].
+      assert (J0 : In (tsearch (pheap t) k T) (leaves T)) by apply tsearch_in.
+      destruct (rep_valid _ _ _ _ (q_rep _ _ _ _ _ IN)) as [_ VL]. pose proof (VL _ J0) as VJ.
+      destruct (nth_error (pheap t) (tsearch (pheap t) k T)) as [ln|] eqn:Hl; [|apply nth_error_None in Hl; lia].
+      destruct (list_eq_dec N.eq_dec (n_key ln) k) as [EK|NE].
+      + destruct (put_update t r rn c T k v ln IN Hl EK) as [t2 [P2 [[rn2 I2] _]]].
+        assert (t2 = t') by congruence. subst t2. unfold POwn. rewrite (q_root _ _ _ _ _ I2). eauto 8.
+      + destruct (put_new t r rn c T k v ln IN KV Hl NE) as [t2 [P2 [[rn2 [c2 I2]] _]]].
+        assert (t2 = t') by congruence. subst t2. unfold POwn. rewrite (q_root _ _ _ _ _ I2).
+        exists rn2, c2. eexists. split; [exact I2|].
+        assert (FL : ~ In (length (pheap t)) (leaves T)) by (intros F; specialize (VL _ F); lia).
+        split; [now apply owns_tins|]. split; [now apply nodup_leaves_tins|].
+        apply (leaves_tins (nbp (pheap t)) (nkey (pheap t))). auto.
+    - destruct (put_empty t k v R KV) as [t2 [P2 [_ C2]]]. assert (t2 = t') by congruence. subst t2.
+      destruct (single_state t' I') as [r [rn [c [IN _]]]]; [now rewrite C2|].
+      unfold POwn. rewrite (q_root _ _ _ _ _ IN). exists rn, c, (PLeaf c). split; auto.
+      pose proof (q_single _ _ _ _ _ IN) as SG. simpl in SG. subst c. simpl.
+      repeat split; auto. repeat constructor; auto.
+  Qed.
 End Put.
